@@ -5,8 +5,8 @@ package network
 // alphabets, bounds and oracles (verif_c43_a_slurper_test.go, verif_c43_b_peer_test.go, verif_c43_c_filter_test.go).
 //
 // Unexported identifiers the harness depends on (a rename is a build failure, exit 2, never a verdict):
-//   LimitedReaderSlurper.{buffers,lastBuffer,remainedUnallocatedSpace,currentMessageBytesRead,currentMessageMaxSize},
-//   allocationStep, averageMessageLength; wsPeer.{conn,closing,sendBufferHighPrio,sendBufferBulk,responseChannels,
+//   (the LimitedReaderSlurper is inspected by reflection only: no private field names), allocationStep,
+//   averageMessageLength; wsPeer.{conn,closing,sendBufferHighPrio,sendBufferBulk,responseChannels,
 //   processed,incomingMsgFilter,outgoingMsgFilter,enableVoteCompression,voteCompressionTableSize,features,msgCodec,wg,
 //   outstandingTopicRequests,readLoop,makeResponseChannel}, makePeerCore, makeWsPeerMsgCodec, wsPeerWebsocketConn,
 //   GossipNode.peerRemoteClose, disconnectReason*, sendMessage.{data,msgTags}, Topic.{key,data}, requestHashKey,
@@ -25,6 +25,9 @@ package network
 //   M8  zstdProposalDecompressor.convert without the decompressed-size check               DETECTED  part b2 (PP with limit+1 decompressed bytes handed on)
 //   M9  slurper per-message check off by one (>= instead of >)                             DETECTED  part a (message of exactly limit bytes rejected)
 //   M10 messageFilter.find skips the top bucket                                            DETECTED  part c E-SEQ depth 2 and E-SCHED
+// Independent seeded changes (round 2): r2A (slurper: single countdown field, 0 = unlimited, so a read ending exactly
+//   on the limit lifts it) DETECTED part a (Size() 2 > limit 1 with base 1, chunk [2]); r2B (find() stops at the first
+//   nil bucket: warm-up of a filter with >= 3 buckets) DETECTED by the quick 3x1/3x2 E-SEQ configurations at depth 2.
 
 import (
 	"encoding/json"
